@@ -124,6 +124,9 @@ func (c *Ctx) globalWrites(pkgs ...string) (writes []globalWrite, globals []*ssa
 						if strings.HasPrefix(n, "(*sync.Map).") && !strings.HasSuffix(n, ".Load") && !strings.HasSuffix(n, ".Range") {
 							writesFirst = true
 						}
+						if strings.HasPrefix(n, "(*sync.Pool).") {
+							writesFirst = true
+						}
 						if strings.HasPrefix(n, "(*sync.Mutex).") || strings.HasPrefix(n, "(*sync.RWMutex).") || strings.HasPrefix(n, "(*sync.Once).") || strings.HasPrefix(n, "(*sync/atomic.") {
 							writesFirst = true
 						}
